@@ -1316,7 +1316,8 @@ impl Database {
         let can_onepass = pk_lookup_info.is_some()
             && unique_col_indices.is_empty()
             && !has_toast
-            && deferred_assignments.is_empty();
+            && deferred_assignments.is_empty()
+            && update.returning.is_none();
 
         if can_onepass {
             if let Some((ref target_key, ref target_val)) = pk_lookup_info {
